@@ -109,7 +109,7 @@ func resetTerms() {
 type options struct {
 	loopBound, depthMax, qTimeout, encTimeout, pruneMs, workers, maxTerms, validate int
 	solver, keep, traceQ                                                          string
-	cross, prof                                                                   bool
+	cross, prof, decide                                                           bool
 	seed                                                                          int64
 }
 
@@ -139,6 +139,7 @@ func main() {
 	fs.BoolVar(&op.cross, "cross", false, "cross-check every decided query with z3-new and cvc5")
 	fs.StringVar(&op.keep, "keep", "", "directory to keep SMT files in")
 	fs.StringVar(&op.traceQ, "trace", "", "print the block trace of the model of the sat query with this label")
+	fs.BoolVar(&op.decide, "decide", false, "ask the pruning solver at every symbolic branch whether it is decided")
 	fs.BoolVar(&op.prof, "profile", false, "print per-function term/time profile of the encoding")
 	consts := constFlags{}
 	fs.Var(consts, "const", "harness constant name=value (repeatable)")
@@ -263,7 +264,7 @@ func runCube(prog *ssa.Program, pkg *ssa.Package, fn *ssa.Function, modPath stri
 		infos: infos, globals: map[*ssa.Global]*Obj{},
 		sizes: &types.StdSizes{WordSize: 8, MaxAlign: 8}, fnsSeen: fnsSeen, consts: consts,
 		ndCount: map[string]int{}, stubsUsed: stubs, inexact: map[string]int{},
-		maxTerms: op.maxTerms, trace: op.traceQ != "", pruneMs: op.pruneMs,
+		decideBranches: op.decide, maxTerms: op.maxTerms, trace: op.traceQ != "", pruneMs: op.pruneMs,
 		deadline: time.Now().Add(time.Duration(op.encTimeout) * time.Second)}
 	if op.prof {
 		ex.profile = map[string]*[3]int64{}
